@@ -72,6 +72,14 @@ if not skip_confirm:
         res["demo_without_patch_tail"] = o[-800:]
         sh("git checkout -- . && git clean -fdq", cwd=WT)
 
+if "--no-detect" in sys.argv:
+    # confirmation only (nothing touches /repo); detection is run later with --skip-confirm
+    if os.path.exists(f"{out_dir}/eval{idx}.json"):
+        res["detection"] = json.load(open(f"{out_dir}/eval{idx}.json")).get("detection", {})
+    json.dump(res, open(f"{out_dir}/eval{idx}.json", "w"), indent=1)
+    print(prop, idx, {k: v for k, v in res.items() if k in ("applies", "demo_with_patch_fails", "suite_with_patch_passes", "demo_without_patch_passes")})
+    sys.exit(0)
+
 # detection on /repo itself
 rc, o = sh("git -C /repo status --porcelain")
 assert o.strip() == "", "/repo is not clean: " + o
